@@ -20,6 +20,7 @@ ACCEPT_REARM = os.environ.get("VERIF_C07_ACCEPT_REARM", "1") == "1"
 # with notes/C07_fix_pipe_connect_ealready.diff (UV_EALREADY).  Flip the default when the patch is committed.
 PIPE_CONNECT_EALREADY = os.environ.get("VERIF_C07_PIPE_EALREADY", "0") == "1"
 K_LOST = "pipe_connect_overwrites_pending_request"
+K_RETRY = "pipe_connect_retry_not_readable_writable"
 
 
 # --------------------------------------------------------------------------
@@ -187,6 +188,31 @@ def gen_ipc_burst(rng):
         r = rng.random()
         behs.append("" if r < 0.85 else "Af" if r < 0.92 else "N T")
     return "i%d ; %s ; %s ; " % (a, " ".join(ops), " | ".join(behs))
+
+
+def gen_connect_retry(rng, kind):
+    """A failing connect whose callback retries on the same handle (to a live or a dead target), with
+    uv_write / uv_shutdown / uv_read_start issued from the callbacks as well."""
+    if kind == "t":
+        dead, live = ["Tc"], ["Tl"]
+    else:
+        dead, live = ["Pm", "Pn", "Po", "Q0m", "Pf"], ["Pl", "Q0l"]
+    ops = [rng.choice(dead), "R"]
+    behs = []
+    for k in range(rng.randint(1, 4)):
+        r = rng.random()
+        nxt = rng.choice(live) if r < 0.6 else rng.choice(dead) if r < 0.85 else ""
+        pre = rng.choice(["", "", "", "W", "G"]) if k else rng.choice(["", "", "W"])
+        post = rng.choice(["", "", "", "W"])
+        behs.append(" ".join(x for x in (pre, nxt, post) if x))
+    behs.append(rng.choice(["", "W", "H", "G", "W W", "W H", "G", "W " + rng.choice(live)]))
+    behs.append(rng.choice(["", "W", "H"]))
+    ops += ["R"] * rng.randint(3, 6)
+    if rng.random() < 0.5:
+        ops += [rng.choice(["W", "H", "G", rng.choice(live), rng.choice(dead)]), "R", "R"]
+    if rng.random() < 0.5:
+        ops += ["C", "R", "R"]
+    return "%s ; %s ; %s ; " % (kind, " ".join(ops), " | ".join(behs))
 
 
 def gen_shortage(rng, mode):
@@ -611,6 +637,13 @@ def connect_monitor(case, out):
             if k != "c":
                 continue
             r, st, arr, gp = int(f[0]), int(f[1]), int(f[2]), int(f[3])
+            if st == 0 and len(f) > 4 and f[4] != "11" and not any(o in case for o in (" H", " G")):
+                why = "connect callback of request %d reported status 0 but the stream is %sreadable and %swritable" \
+                      % (r, "" if f[4][0] == "1" else "not ", "" if f[4][1] == "1" else "not ")
+                if kind == "p" and any(k2 == "c" and int(f2[1]) != 0 for k2, f2 in ents[:i]):
+                    return K_RETRY, why + " (uv_pipe_connect retried on the handle of a failed attempt: " \
+                                          "uv__stream_open runs only when the call created the socket)"
+                return None, why
             if st == 0 and gp != 0:
                 return None, "connect callback of request %d reported status 0 but the socket is not connected " \
                              "(getpeername: errno %d)" % (r, -gp)
@@ -626,12 +659,40 @@ def connect_monitor(case, out):
             upto_cb = sum(arr(j) for j in range(j0 + 1, i + 1))
             upto_next = sum(arr(j) for j in range(j0 + 1, min(j1, len(ents) - 1) + 1))
             others = [j for j in range(j0 + 1, i) if ents[j][0] in "sc"]          # anything between submit and callback
-            if st == 0 and upto_cb == 0:
+            used = any(k2 == "c" and int(f2[1]) == 0 for k2, f2 in ents[:j0])     # the socket was connected before
+            if st == 0 and upto_cb == 0 and not used:
                 return None, "connect callback of request %d reported status 0 but no connection reached the " \
                              "listener" % r
-            if st not in (0, -125) and upto_next > 0 and not others and r not in overlapped and r not in late:
+            if st not in (0, -125) and upto_next > 0 and not others and not used \
+                    and r not in overlapped and r not in late:
                 return None, "connect callback of request %d reported status %d although the connection was " \
                              "established (the listener got it)" % (r, st)
+    # a request accepted with 0 whose connection the listener received must complete: with the handle open,
+    # two further loop iterations without its callback = established but never completed
+    if vlog and not any(t[0] == "g" and t != "gp" for t in script.split()):
+        for r, ret in sub.items():
+            if ret != 0 or r in overlapped or r in late:
+                continue
+            j0 = next((j for j, (k2, f2) in enumerate(ents) if k2 == "s" and int(f2[0]) == r), None)
+            if j0 is None:
+                continue
+            cum, est, later = 0, None, 0
+            for j in range(j0 + 1, len(ents)):
+                k2, f2 = ents[j]
+                if k2 == "s" and sub.get(int(f2[0])) == 0:
+                    break                        # another accepted request: arrivals are no longer attributable
+                if k2 == "c" and int(f2[0]) == r:
+                    break
+                if k2 == "x":
+                    break
+                if est is not None and k2 == "r":
+                    later += 1
+                    if later >= 2:
+                        return None, "connect request %d was established (the listener got it) but never completed: " \
+                                     "%d loop iterations later its callback has not run and the handle is open" % (r, later)
+                cum += int(f2[2]) if k2 in "sc" else int(f2[0])
+                if est is None and cum > 0:
+                    est = j
     # status against what the harness arranged (no injected answers, callbacks do nothing)
     top = ops.split()
     if not script and not behs.replace("|", "").strip() and top:
@@ -793,10 +854,12 @@ FIXED = {
             "i ; Mtudtudtudt Mtudtudtud R R N " + "Af T N " * 20 + "; ; ",
             "i ; " + "Mt R " * 9 + "F1 Mt R N Mu R N " + "Af " * 11 + "; ; ",   # growth allocation fails
             "i ; Mt R F1 Mu R N Md R N Af Af Af ; ; "],                    # first allocation fails
-    "con-t": ["t ; B Tl R R C R ; ; ", "t ; B Tl R R Tl R R C R ; ; ", "t ; b T6 R T6 Tl R R C R ; ; ", "t ; Tl R Tc Tc R C R ; ; e101 e99 e24", "t ; Tl Tc R R ; Tc Tl ; s24 p s23",
+    "con-t": ["t ; Tc R R R R R ; Tl | Tl | W ; ", "t ; Tc R R R R C R R ; Tc | Tl | W H ; ", "t ; Tl R R R ; W G ; ",
+              "t ; B Tl R R C R ; ; ", "t ; B Tl R R Tl R R C R ; ; ", "t ; b T6 R T6 Tl R R C R ; ; ", "t ; Tl R Tc Tc R C R ; ; e101 e99 e24", "t ; Tl Tc R R ; Tc Tl ; s24 p s23",
               "t ; Tl R R C R ; ; ", "t ; Tc R R C R ; ; ", "t ; Tl C R R ; ; ", "t ; B Tl R R C R ; Tl ; ",
               "t ; Tl Tl R R C R ; ; e4 e111"],
-    "con-p": ["p ; Pf R R Pl R R C R ; ; ", "p ; Q0f R Pf R C R ; ; ", "p ; Pl R Pm R Po R Pe R Pn R C R ; ; ", "p ; Q1o Q2l Q0z Q0e Q0o R C R ; ; ", "p ; Pm C R ; ; s24",
+    "con-p": ["p ; Pm R R R R ; Pl | W ; ", "p ; Pn R R R C R R ; Pl | W H ; ", "p ; Pm R R R R ; Pm | W Pl | G ; ",
+              "p ; Pf R R Pl R R C R ; ; ", "p ; Q0f R Pf R C R ; ; ", "p ; Pl R Pm R Po R Pe R Pn R C R ; ; ", "p ; Q1o Q2l Q0z Q0e Q0o R C R ; ; ", "p ; Pm C R ; ; s24",
               "p ; Q0l Q0m R R C R R ; ; ",                               # a second connect while one is pending
               "p ; Pl Pm Po R R C R R ; ; ", "p ; Pl Pm Q0m C R R ; ; ", "p ; Pm Pl R Pl Pn Pe R R C R ; Pm Pl | | Pl ; "],
 }
@@ -854,8 +917,8 @@ def main():
         "srv-t": [gen_server(rng, "t") for _ in range(300 * mult)] + [gen_shortage(rng, "t") for _ in range(30 * mult)],
         "srv-u": [gen_server(rng, "u") for _ in range(350 * mult)] + [gen_shortage(rng, "u") for _ in range(30 * mult)],
         "ipc": [gen_ipc(rng) for _ in range(600 * mult)] + [gen_ipc_burst(rng) for _ in range(250 * mult)],
-        "con-t": [gen_connect(rng, "t") for _ in range(700 * mult)],
-        "con-p": [gen_connect(rng, "p") for _ in range(700 * mult)],
+        "con-t": [gen_connect(rng, "t") for _ in range(700 * mult)] + [gen_connect_retry(rng, "t") for _ in range(150 * mult)],
+        "con-p": [gen_connect(rng, "p") for _ in range(700 * mult)] + [gen_connect_retry(rng, "p") for _ in range(150 * mult)],
         "w": write_table(),
     }
     for key in ["w", "ipc", "srv-u", "srv-t", "con-t", "con-p"]:
